@@ -320,7 +320,7 @@ func TestC12(t *testing.T) {
 
 	// ---- thorough: a seeded sample of the sequences of length 4
 	if thorough() {
-		for i := 0; i < 20000; i++ {
+		for i := 0; i < 4000; i++ {
 			rnd := newRand(int64(40000 + i))
 			var frames []*FrameSpec
 			for pos := 0; pos < 4; pos++ {
